@@ -445,7 +445,60 @@ func (l *simOCSPLookup) Lints() []*lint.OcspResponseLint {
 
 // ---------------------------------------------------------------- generation
 
+// genSchedPair: the pair sweep of the fine-grain batch. Run i takes the i-th
+// lint that has a finding on at least two corpus objects, gives 2-3 such
+// objects to as many clients, each linting with the singleton registry of
+// that lint, and switches the baton at every function entry (round robin):
+// the bodies of the same lint on different objects are interleaved call by call.
+func genSchedPair(seed uint64, prop, tier, mode string) *Plan {
+	g := newRNG(seed)
+	i, _ := parseSlice(mode)
+	p := &Plan{Engine: "sched", Prop: prop, Seed: seed, Tier: tier, Knobs: map[string]any{"worker_mode": mode, "finegrain": true}}
+	cidx := corpusClassIndex()
+	byLint := map[string][]int{}
+	for k := range cidx {
+		for _, n := range cidx[k].Find {
+			byLint[n] = append(byLint[n], k)
+		}
+	}
+	var lints []string
+	for _, n := range sortedKeys(byLint) {
+		if len(byLint[n]) >= 2 {
+			lints = append(lints, n)
+		}
+	}
+	if len(lints) == 0 {
+		die(2, "pair sweep: no lint with two finding objects")
+	}
+	L := lints[i%len(lints)]
+	objs := byLint[L]
+	K := 2
+	if len(objs) >= 3 && g.Chance(0.4) {
+		K = 3
+	}
+	p.Knobs["lint"] = L
+	p.Knobs["clients"] = K
+	p.Ops = append(p.Ops, Op{K: "filter", Reg: 0, Opts: &FilterOpts{IncludeNames: []string{L}}})
+	for c, oi := range g.subset(len(objs), K) {
+		o := loadCorpusFile(cidx[objs[oi]].File)
+		if o == nil {
+			continue
+		}
+		p.Objects = append(p.Objects, *o)
+		_ = c
+		p.Clients = append(p.Clients, []Op{{K: "lint", Obj: len(p.Objects) - 1, Reg: 1}})
+	}
+	p.Schedule = &Schedule{Strategy: "rr", Seed: g.U64()}
+	if g.Chance(0.3) {
+		p.Schedule = &Schedule{Strategy: "bernoulli", P: 0.5, Seed: g.U64()}
+	}
+	return p
+}
+
 func genSched(seed uint64, prop, tier, mode string) *Plan {
+	if strings.HasPrefix(mode, "fgpair") {
+		return genSchedPair(seed, prop, tier, mode)
+	}
 	g := newRNG(seed)
 	meta := readMetaTable()
 	idx := corpusIndex()
